@@ -859,6 +859,8 @@ func (vm *vm) handleThrow(arg interface{}) *Exception {
 					continue
 				}
 			}
+			// the script code run by the iterators' return() methods may have caused vm.tryStack to be reallocated
+			tf = &vm.tryStack[len(vm.tryStack)-1]
 		} else {
 			_ = vm._restoreStacks(tf.iterLen, tf.refLen, false)
 		}
